@@ -21,7 +21,7 @@ type prioRoles struct {
 	key string
 
 	sendFn        *ssa.Function
-	sendPrioIdx   int // parameter of sendFn that becomes the Priority tag
+	sendPrioIdx   int      // parameter of sendFn that becomes the Priority tag
 	sendTag       *Sym     // the Priority tag of the value sent, in terms of sendFn's parameters
 	sendStructIdx int      // when the tag is a field of a struct parameter: that parameter ...
 	sendTagPath   []string // ... and the field path to the tag
